@@ -156,7 +156,7 @@ Definition done_pc (pc : cpc) : Prop := match pc with CDone _ => True | _ => Fal
 Definition pre_setup (pc : cpc) : Prop :=
   match pc with CIdle | CStarted | CDecided _ => True | _ => False end.
 
-Record cinv (v : variant) (grace : bool) (bs : list beh) (s : cstate) : Prop := mkcinv {
+Record cinv (v : variant) (grace : option Z) (bs : list beh) (s : cstate) : Prop := mkcinv {
   ci_inner : rinv v bs (inner s);
   ci_run : c_pc s <> CIdle -> c_running s = true;
   ci_notrun : c_running s = false -> c_pc s = CIdle /\ c_stopped s = false;
@@ -188,7 +188,9 @@ Record cinv (v : variant) (grace : bool) (bs : list beh) (s : cstate) : Prop := 
   ci_j4 : decidedb (fatal_state (c_procs s)) = true ->
           fatal_count s <= 1 /\ (fatal_count s = 1 -> timer_fired s = true) /\
           (tie s = false -> (fatal_count s = 1 <-> fired_early s = true));
-  ci_nograce : grace = false -> forall c, In c (closers s) -> is_fatal c = false
+  ci_nograce : forall c, In c (closers s) ->
+               match c with Fatal d => grace = Some d | User _ => True end;
+  ci_elapsed : (0 <= elapsed s)%Z
 }.
 
 Lemma cinv_init v grace bs cls : cinv v grace bs (new_cm grace bs cls).
@@ -198,13 +200,15 @@ Proof.
   - eexists. split; [reflexivity|]. discriminate.
   - intros c e H. destruct c; discriminate.
   - intros a idx H. destruct a; discriminate.
-  - intros -> c H. cbn in H. apply in_map_iff in H. destruct H as [r [<- _]]. reflexivity.
+  - intros c H. apply in_app_or in H. destruct H as [H|H].
+    + destruct grace; [destruct H as [<-|[]]; reflexivity | destruct H].
+    + apply in_map_iff in H. destruct H as [r [<- _]]. exact Logic.I.
 Qed.
 
 Ltac cfin :=
   cbn [inner c_running c_closing c_stopped closers c_pc c_procs fch_closed timer_fired fired_early
-       fatal_count tie reterr addcl closes run_rejected cadds w_inner w_pc w_procs w_addcl w_closes
-       w_cadds closing_pc done_pc pre_setup];
+       fatal_count tie reterr addcl closes run_rejected cadds elapsed w_inner w_pc w_procs w_addcl
+       w_closes w_cadds w_elapsed closing_pc done_pc pre_setup];
   try assumption; try discriminate; try (intros; discriminate); auto;
   try (let Hx := fresh in intros Hx; exfalso; exact Hx);
   try (let Hx := fresh in intros Hx; exfalso; apply Hx; exact I);
@@ -266,7 +270,7 @@ Lemma cinv_step v grace bs s e s' : cinv v grace bs s -> step_c v s e = Some s' 
 Proof.
   intros I H.
   destruct I as [Iin Irun Inot Iearly Iclosing Iidle Istop Idone Ireterr Iclosers Icoll Idn Istarts
-                 Ikret Iacc J1 J2 J3 J4 Ing].
+                 Ikret Iacc J1 J2 J3 J4 Ing Iel].
   destruct e; cbn [step_c step_c_gen step_c_gen] in H.
   - (* CRunCas *)
     destruct (c_running s) eqn:Er; inv H.
@@ -336,6 +340,7 @@ Proof.
       specialize (Ha p (nth_error_In _ _ Ep)). congruence.
     + intros q Hq. apply in_upd in Hq. destruct Hq as [Hq|[p' [E ->]]]; [auto|].
       rewrite Ep in E; inv E. cbn. rewrite (Istarts p' (nth_error_In _ _ Ep)), Est. reflexivity.
+    + destruct (is_fatal (c_cl p)); lia.
   - (* CCloserReturn *)
     destruct (nth_error (c_procs s) j) as [p|] eqn:Ep; try discriminate.
     destruct (c_st p) eqn:Est; try discriminate.
@@ -353,9 +358,13 @@ Proof.
       specialize (Ha p (nth_error_In _ _ Ep)). congruence.
     + intros q Hq. apply in_upd in Hq. destruct Hq as [Hq|[p' [E ->]]]; [auto|].
       rewrite Ep in E; inv E. cbn. rewrite (Istarts p' (nth_error_In _ _ Ep)), Est. reflexivity.
+  - (* CAdvance *)
+    destruct (0 <=? d)%Z eqn:Ed; inv H. apply Z.leb_le in Ed.
+    constructor; cfin. lia.
   - (* CFire *)
     destruct (find_fatal_running (c_procs s) 0) as [j|] eqn:Ef; try discriminate.
-    destruct (timer_fired s) eqn:Etf; inv H.
+    destruct (timer_fired s) eqn:Etf; [discriminate|].
+    destruct (grace_elapsed s); inv H.
     destruct (find_fatal_running_spec _ _ _ Ef) as [i [p [_ [Ep [Est [Hfs _]]]]]].
     constructor; cfin.
     intros _ ->. reflexivity.
@@ -481,7 +490,7 @@ Proof.
       * intros a0 idx Ha. rewrite app_length. cbn [length]. destruct (Nat.eq_dec a a0) as [<-|Hne].
         { rewrite (nth_error_upd_same _ _ _ _ Ea) in Ha. inv Ha. lia. }
         rewrite nth_error_upd_other in Ha by auto. apply Iacc in Ha. lia.
-      * intros Hg c Hc. apply in_app_or in Hc. destruct Hc as [Hc|[<-|[]]]; [eauto | reflexivity].
+      * intros c Hc. apply in_app_or in Hc. destruct Hc as [Hc|[<-|[]]]; [apply Ing; exact Hc | exact Logic.I].
   - (* CAddCheck *)
     destruct (c_running s) eqn:Er.
     + inv H. constructor; cfin.
